@@ -67,3 +67,428 @@ theorem comment_pre : comment (pre ++ s) (pre.length + i) = shift pre.length (co
     rw [h]
     simp only [peek_pre]
     split <;> simp [shift, Nat.add_assoc]
+
+theorem length_pre_sub (k : Nat) : (pre ++ s).length - (pre.length + k) = s.length - k := by
+  simp only [List.length_append]; omega
+
+theorem wsEOLLoop_pre (f : Nat) (e : Bool) :
+    wsEOLLoop f (pre ++ s) (pre.length + i) e =
+      (wsEOLLoop f s i e).map (fun r => (pre.length + r.1, r.2)) := by
+  induction f generalizing i e with
+  | zero => rfl
+  | succ f ih =>
+    unfold wsEOLLoop
+    simp only [allowed_pre, peek_pre]
+    split
+    · rw [comment_pre]
+      cases hc : comment s ((allowed isWsEol s i).2) with
+      | mk r k =>
+        cases r with
+        | ok v => simp only [shift]; rw [ih]
+        | err e' => simp [shift]
+        | panic p => simp [shift]
+    · simp
+
+theorem wsEOL_pre (e : Bool) : wsEOL e (pre ++ s) (pre.length + i) = shift pre.length (wsEOL e s i) := by
+  unfold wsEOL
+  have hl : (pre ++ s).length + 1 - (pre.length + i) = s.length + 1 - i := by
+    simp only [List.length_append]; omega
+  rw [hl, wsEOLLoop_pre]
+  cases wsEOLLoop (s.length + 1 - i) s i true with
+  | none => simp [shift]
+  | some r =>
+    obtain ⟨j, em⟩ := r
+    simp only [Option.map_some]
+    split <;> simp [shift]
+
+theorem signPrefix_pre : signPrefix (pre ++ s) (pre.length + i) =
+    ((signPrefix s i).1, pre.length + (signPrefix s i).2) := by
+  unfold signPrefix
+  simp only [peek_pre]
+  split
+  · simp [Nat.add_assoc]
+  · split <;> simp [Nat.add_assoc]
+
+theorem integerP_pre : integerP (pre ++ s) (pre.length + i) = shift pre.length (integerP s i) := by
+  unfold integerP
+  rw [signPrefix_pre]
+  simp only [allowed_pre, peek_pre]
+  split
+  · simp [shift]
+  · split <;> simp [shift]
+
+theorem realP_pre : realP (pre ++ s) (pre.length + i) = shift pre.length (realP s i) := by
+  unfold realP
+  rw [signPrefix_pre]
+  simp only [allowed_pre, peek_pre]
+  split
+  · simp [shift]
+  · split
+    · simp [shift]
+    · split
+      · have h := allowed_pre pre s ((allowed isDigit s (signPrefix s i).2).2 + 1) isDigit
+        rw [← Nat.add_assoc] at h
+        rw [h]
+        simp only
+        split <;> simp [shift]
+      · simp [shift]
+
+theorem hexString_pre : hexString (pre ++ s) (pre.length + i) = shift pre.length (hexString s i) := by
+  unfold hexString
+  simp only [peek_pre]
+  split
+  · simp [shift]
+  · have h := allowed_pre pre s (i + 1) (fun b => isHexDigit b || isHexWs b)
+    rw [← Nat.add_assoc] at h
+    rw [h]
+    simp only [peek_pre]
+    split <;> simp [shift, Nat.add_assoc]
+
+theorem litLoop_shift (k : Nat) (rest : Bytes) (pos : Nat) (ls : Option Nat) (depth : Nat) (acc : Bytes) :
+    litLoop rest (k + pos) (ls.map (k + ·)) depth acc =
+      (litLoop rest pos ls depth acc).map (fun r => (r.1, k + r.2)) := by
+  induction rest generalizing pos ls depth acc with
+  | nil => rfl
+  | cons b t ih =>
+    have a1 : k + pos + 1 = k + (pos + 1) := by omega
+    cases ls with
+    | none =>
+      conv => lhs; unfold litLoop
+      conv => rhs; unfold litLoop
+      simp only [Option.map_none, a1, Bool.false_eq_true, if_false]
+      split
+      · exact ih _ none _ _
+      · split
+        · split
+          · simp
+          · exact ih _ none _ _
+        · split
+          · exact ih _ (some pos) _ _
+          · exact ih _ none _ _
+    | some p =>
+      have hc : (k + p + 1 == k + pos) = (p + 1 == pos) := by
+        rw [Bool.eq_iff_iff]; simp only [beq_iff_eq]; omega
+      conv => lhs; unfold litLoop
+      conv => rhs; unfold litLoop
+      simp only [Option.map_some, a1, hc]
+      split
+      · split
+        · exact ih _ (some p) _ _
+        · exact ih _ none _ _
+      · split
+        · split
+          · exact ih _ (some p) _ _
+          · split
+            · simp
+            · exact ih _ none _ _
+        · split
+          · split
+            · exact ih _ none _ _
+            · exact ih _ (some pos) _ _
+          · exact ih _ (some p) _ _
+
+theorem rawLitString_pre : rawLitString (pre ++ s) (pre.length + i) = shift pre.length (rawLitString s i) := by
+  unfold rawLitString
+  simp only [peek_pre]
+  split
+  · simp [shift]
+  · have hd : (pre ++ s).drop (pre.length + i + 1) = s.drop (i + 1) := by
+      rw [Nat.add_assoc]; exact drop_pre pre s (i + 1)
+    rw [hd]
+    have := litLoop_shift pre.length (s.drop (i + 1)) (i + 1) none 1 []
+    simp only [Option.map_none] at this
+    rw [Nat.add_assoc, this]
+    cases litLoop (s.drop (i + 1)) (i + 1) none 1 [] with
+    | none => simp [shift]
+    | some r => simp [shift]
+
+theorem nameP_pre : nameP (pre ++ s) (pre.length + i) = shift pre.length (nameP s i) := by
+  unfold nameP
+  simp only [peek_pre]
+  split
+  · simp [shift]
+  · have h := untilB_pre pre s (i + 1) isNameTerm
+    rw [← Nat.add_assoc] at h
+    rw [h]
+    simp only
+    split <;> simp [shift]
+
+/-! ### the object parser -/
+
+/-- shift for results without a span -/
+def shiftC {α : Type} (k : Nat) : Res α × Nat → Res α × Nat
+  | (r, c) => (r, k + c)
+
+theorem referenceP_pre : referenceP (pre ++ s) (pre.length + i) = shiftC pre.length (referenceP s i) := by
+  unfold referenceP
+  rw [integerP_pre]
+  cases h1 : integerP s i with
+  | mk r1 j =>
+    cases r1 with
+    | err e => simp [shift, shiftC]
+    | panic p => simp [shift, shiftC]
+    | ok num =>
+      simp only [shift]
+      split
+      · simp [shiftC]
+      · rw [wsEOL_pre]
+        cases h2 : wsEOL true s j with
+        | mk r2 j1 =>
+          cases r2 with
+          | err e => simp [shift, shiftC]
+          | panic p => simp [shift, shiftC]
+          | ok u =>
+            simp only [shift]
+            rw [integerP_pre]
+            cases h3 : integerP s j1 with
+            | mk r3 j2 =>
+              cases r3 with
+              | err e => simp [shift, shiftC]
+              | panic p => simp [shift, shiftC]
+              | ok gen =>
+                simp only [shift]
+                split
+                · simp [shiftC]
+                · rw [wsEOL_pre]
+                  cases h4 : wsEOL true s j2 with
+                  | mk r4 j3 =>
+                    cases r4 with
+                    | err e => simp [shift, shiftC]
+                    | panic p => simp [shift, shiftC]
+                    | ok u2 =>
+                      simp only [shift, exact_pre]
+                      cases h5 : exact [82] s j3 with
+                      | mk b5 j4 => cases b5 <;> simp [shiftC]
+
+theorem numberOrRef_pre : numberOrRef (pre ++ s) (pre.length + i) = shiftC pre.length (numberOrRef s i) := by
+  unfold numberOrRef
+  rw [realP_pre]
+  cases h1 : realP s i with
+  | mk r1 j =>
+    cases r1 with
+    | err e => simp [shift, shiftC]
+    | panic p => simp [shift, shiftC]
+    | ok r =>
+      simp only [shift]
+      split
+      · simp [shiftC]
+      · rw [wsEOL_pre]
+        cases h2 : wsEOL false s j with
+        | mk r2 j1 =>
+          cases r2 with
+          | err e => simp [shift, shiftC]
+          | panic p => simp [shift, shiftC]
+          | ok u =>
+            simp only [shift]
+            rw [integerP_pre]
+            cases h3 : integerP s j1 with
+            | mk r3 j2 =>
+              cases r3 with
+              | err e => simp [shift, shiftC]
+              | panic p => simp [shift, shiftC]
+              | ok g =>
+                simp only [shift]
+                rw [wsEOL_pre]
+                cases h4 : wsEOL false s j2 with
+                | mk r4 j3 =>
+                  cases r4 with
+                  | err e => simp [shift, shiftC]
+                  | panic p => simp [shift, shiftC]
+                  | ok u2 =>
+                    simp only [shift, startsWith_pre]
+                    have hp : peek (pre ++ s) (pre.length + j3 + 1) = peek s (j3 + 1) := by
+                      rw [Nat.add_assoc]; exact peek_pre pre s (j3 + 1)
+                    rw [hp]
+                    split
+                    · rw [referenceP_pre]
+                      cases h5 : referenceP s i with
+                      | mk r5 j4 => cases r5 <;> simp [shiftC]
+                    · simp [shiftC]
+
+/-- shift for an element-parser result (located value, cursor, context depth) -/
+def shiftR (k : Nat) : R × Nat → R × Nat
+  | (r, cur) => (shift k r, cur)
+
+/-- shift for loop / dispatcher results (unlocated value, cursor, context depth) -/
+def shiftL {α : Type} (k : Nat) : (Res α × Nat) × Nat → (Res α × Nat) × Nat
+  | ((r, c), cur) => ((r, k + c), cur)
+
+def ElemPre (el : Elem) (pre : Bytes) : Prop :=
+  ∀ (cur : Nat) (s : Bytes) (i : Nat), el cur (pre ++ s) (pre.length + i) = shiftR pre.length (el cur s i)
+
+theorem arrayLoop_pre (el : Elem) (hel : ElemPre el pre) (f cur : Nat) (acc : List Obj) :
+    arrayLoop el f cur (pre ++ s) (pre.length + i) acc = shiftL pre.length (arrayLoop el f cur s i acc) := by
+  induction f generalizing i cur acc with
+  | zero => rfl
+  | succ f ih =>
+    unfold arrayLoop
+    rw [wsEOL_pre]
+    cases h1 : wsEOL true s i with
+    | mk r1 j =>
+      cases r1 with
+      | err e => simp [shift, shiftL]
+      | panic p => simp [shift, shiftL]
+      | ok u =>
+        simp only [shift, exact_pre]
+        cases h2 : exact [93] s j with
+        | mk b2 k2 =>
+          cases b2 with
+          | true => simp [shiftL]
+          | false =>
+            simp only
+            rw [hel]
+            cases h3 : el cur s j with
+            | mk r3 cur' =>
+              obtain ⟨r3, k3⟩ := r3
+              cases r3 with
+              | ok o => simp only [shiftR, shift]; rw [ih]
+              | err e => simp [shiftR, shift, shiftL]
+              | panic p => simp [shiftR, shift, shiftL]
+
+theorem dictLoop_pre (el : Elem) (hel : ElemPre el pre) (f cur : Nat) (names : List Bytes)
+    (map : List (Bytes × Obj)) :
+    dictLoop el f cur (pre ++ s) (pre.length + i) names map =
+      shiftL pre.length (dictLoop el f cur s i names map) := by
+  induction f generalizing i cur names map with
+  | zero => rfl
+  | succ f ih =>
+    unfold dictLoop
+    rw [wsEOL_pre]
+    cases h1 : wsEOL true s i with
+    | mk r1 j =>
+      cases r1 with
+      | err e => simp [shift, shiftL]
+      | panic p => simp [shift, shiftL]
+      | ok u =>
+        simp only [shift, exact_pre]
+        cases h2 : exact [62, 62] s j with
+        | mk b2 k2 =>
+          cases b2 with
+          | true => simp [shiftL]
+          | false =>
+            simp only
+            rw [nameP_pre]
+            cases h3 : nameP s j with
+            | mk r3 k =>
+              cases r3 with
+              | err e => simp [shift, shiftL]
+              | panic p => simp [shift, shiftL]
+              | ok key =>
+                simp only [shift]
+                split
+                · simp [shiftL]
+                · rw [wsEOL_pre]
+                  cases h4 : wsEOL true s k with
+                  | mk r4 k1 =>
+                    cases r4 with
+                    | err e => simp [shift, shiftL]
+                    | panic p => simp [shift, shiftL]
+                    | ok u2 =>
+                      simp only [shift]
+                      rw [hel]
+                      cases h5 : el cur s k1 with
+                      | mk r5 cur' =>
+                        obtain ⟨r5, k2'⟩ := r5
+                        cases r5 with
+                        | err e => simp [shiftR, shift, shiftL]
+                        | panic p => simp [shiftR, shift, shiftL]
+                        | ok o =>
+                          simp only [shiftR, shift]
+                          split <;> rw [ih]
+
+theorem liftTok_shift {α : Type} (f : α → Obj) (cur k : Nat) (r : Res (Located α) × Nat) :
+    liftTok f cur (shift k r) = shiftL k (liftTok f cur r) := by
+  obtain ⟨r, c⟩ := r
+  cases r <;> rfl
+
+theorem parseInternal_pre (el : Elem) (hel : ElemPre el pre) (cur : Nat) :
+    parseInternal el cur (pre ++ s) (pre.length + i) = shiftL pre.length (parseInternal el cur s i) := by
+  unfold parseInternal
+  simp only [peek_pre]
+  have hfuel : (pre ++ s).length + 1 - (pre.length + i) = s.length + 1 - i := by
+    simp only [List.length_append]; omega
+  cases hp : peek s i with
+  | none => simp [shiftL]
+  | some c =>
+    simp only
+    split
+    · rw [boolean_pre, liftTok_shift]
+    · split
+      · rw [null_pre, liftTok_shift]
+      · split
+        · rw [rawLitString_pre, liftTok_shift]
+        · split
+          · rw [comment_pre, liftTok_shift]
+          · split
+            · rw [nameP_pre, liftTok_shift]
+            · split
+              · rw [hfuel, Nat.add_assoc, arrayLoop_pre pre s (i + 1) el hel]
+                cases arrayLoop el (s.length + 1 - i) cur s (i + 1) [] with
+                | mk r cur' =>
+                  obtain ⟨r, k⟩ := r
+                  cases r <;> simp [shiftL]
+              · split
+                · have hp1 : peek (pre ++ s) (pre.length + i + 1) = peek s (i + 1) := by
+                    rw [Nat.add_assoc]; exact peek_pre pre s (i + 1)
+                  rw [hp1]
+                  split
+                  · rw [hfuel, Nat.add_assoc, dictLoop_pre pre s (i + 2) el hel]
+                    cases dictLoop el (s.length + 1 - i) cur s (i + 2) [] [] with
+                    | mk r cur' =>
+                      obtain ⟨r, k⟩ := r
+                      cases r <;> simp [shiftL]
+                  · rw [hexString_pre, liftTok_shift]
+                · split
+                  · simp [shiftL]
+                  · rw [numberOrRef_pre]
+                    cases numberOrRef s i with
+                    | mk r k => simp [shiftC, shiftL]
+
+theorem leaveObj_shift (k : Nat) (x : R × Nat) : leaveObj (shiftR k x) = shiftR k (leaveObj x) := by
+  obtain ⟨⟨r, c⟩, cur⟩ := x
+  by_cases h : cur = 0
+  · subst h
+    cases r <;> simp [shiftR, leaveObj, shift]
+  · have hb : (cur == 0) = false := by simp [h]
+    cases r <;> simp [shiftR, leaveObj, shift, hb]
+
+theorem objParse_pre (el : Elem) (hel : ElemPre el pre) (cur1 : Nat) :
+    objParse el cur1 (pre ++ s) (pre.length + i) = shiftR pre.length (objParse el cur1 s i) := by
+  unfold objParse
+  rw [wsEOL_pre]
+  cases h1 : wsEOL true s i with
+  | mk r1 st =>
+    cases r1 with
+    | err e => simp [shift, shiftR]
+    | panic p => simp [shift, shiftR]
+    | ok u =>
+      simp only [shift]
+      rw [parseInternal_pre pre s st el hel]
+      cases parseInternal el cur1 s st with
+      | mk r cur' =>
+        obtain ⟨r, k⟩ := r
+        cases r <;> simp [shiftL, shiftR, shift]
+
+/-- **Prefix independence of `parse_pdf_obj`**: parsing at cursor `|pre| + i` of `pre ++ s` is
+    parsing at cursor `i` of `s`, with every reported position shifted by `|pre|`. -/
+theorem parseObjB_pre (max : Nat) (b : Nat) : ElemPre (parseObjB max b) pre := by
+  induction b with
+  | zero =>
+    intro cur s i
+    unfold parseObjB
+    split <;> simp [shiftR, shift]
+  | succ b ih =>
+    intro cur s i
+    unfold parseObjB
+    split
+    · simp [shiftR, shift]
+    · simp only
+      rw [objParse_pre pre s i (parseObjB max b) ih, leaveObj_shift]
+
+theorem parseObj_pre (c : Depth) :
+    parseObj c (pre ++ s) (pre.length + i) =
+      (shift pre.length (parseObj c s i).1, (parseObj c s i).2) := by
+  unfold parseObj
+  rw [parseObjB_pre pre c.max (c.max - c.cur) c.cur s i]
+  cases parseObjB c.max (c.max - c.cur) c.cur s i with
+  | mk r cur' => rfl
